@@ -121,13 +121,38 @@ def build_coq(needs=None):
         targets = [os.path.relpath(f, COQ)[:-2] + ".vo" for f in files if os.path.exists(f)]
     p = subprocess.run([os.path.join(COQ, "build.sh"), "-k", *targets], capture_output=True, text=True)
     log = gen_log + p.stdout + p.stderr
+    # a file counts as built only if its .vo is at least as new as its source AND as the .vo of everything it imports
+    # (make -k leaves the stale .vo of a file whose dependency changed and that no longer compiles), and make did not
+    # report an error for it
+    errored = set(re.findall(r"\*\*\* \[[^\]]*?((?:theories|gen)/\w+)\.vo\] Error", log))
     ok, failed = [], []
-    for f in files:
+    status = {}
+    def direct_deps(f):
+        txt = strip_comments(open(f).read())
+        names = []
+        for m in re.finditer(r"From\s+(?:PV|PVG)\s+Require\s+(?:Import|Export)\s+([^.]*)\.", txt):
+            names += m.group(1).split()
+        for m in re.finditer(r"Require\s+(?:Import|Export)\s+((?:PVG?\.\w+\s*)+)\.", txt):
+            names += [x.split(".")[1] for x in m.group(1).split()]
+        return [theory_path(n) for n in names]
+    def good(f, depth=0):
+        if f in status:
+            return status[f]
+        status[f] = False                      # cycle guard
         vo = f[:-2] + ".vo"
-        if os.path.exists(f) and os.path.exists(vo) and os.path.getmtime(vo) >= os.path.getmtime(f):
-            ok.append(f)
-        else:
-            failed.append(f)
+        r = os.path.exists(f) and os.path.exists(vo) and os.path.getmtime(vo) >= os.path.getmtime(f)
+        r = r and os.path.relpath(f, COQ)[:-2] not in errored
+        if r:
+            for d in direct_deps(f):
+                if not os.path.exists(d):
+                    continue
+                if not good(d, depth + 1) or os.path.getmtime(d[:-2] + ".vo") > os.path.getmtime(vo) + 1e-6:
+                    r = False
+                    break
+        status[f] = r
+        return r
+    for f in files:
+        (ok if good(f) else failed).append(f)
     return ok, failed, log
 
 
@@ -301,11 +326,22 @@ def py_env():
     return env
 
 
-def run_impl(ctx, module, func, cases, nworkers=None, per_case_timeout=60):
+def run_impl(ctx, module, func, cases, nworkers=None, per_case_timeout=60, _retry=True):
     """Run harness.<module>.<func>(case) on the real code for every case, in worker subprocesses with their own
-    scratch directories.  Returns a list of results (JSON values); a worker failure yields {"err": ...}."""
+    scratch directories.  Returns a list of results (JSON values); a worker failure yields {"err": ...}.
+    Cases lost to the infrastructure (per-case timeout on a loaded machine, a worker that died) are re-run once, a few at a
+    time with a fourfold time limit, before they are reported."""
     if not cases:
         return []
+    if _retry:
+        res = run_impl(ctx, module, func, cases, nworkers, per_case_timeout, _retry=False)
+        lost = [i for i, r in enumerate(res) if isinstance(r, dict) and r.get("err") in ("timeout", "worker-died")]
+        if lost and len(lost) <= max(20, len(cases) // 3):
+            again = run_impl(ctx, module, func, [cases[i] for i in lost], min(4, len(lost)), per_case_timeout * 4, _retry=False)
+            for i, r in zip(lost, again):
+                res[i] = r
+            ctx.note(f"{len(lost)} cases lost to timeouts/worker deaths were re-run with a longer limit")
+        return res
     nworkers = nworkers or min(int(os.environ.get("VERIF_JOBS", "14")), max(1, len(cases)))
     chunks = [[] for _ in range(nworkers)]
     for i, c in enumerate(cases):
@@ -358,8 +394,8 @@ def known_findings(pid):
         entries += json.load(open(path))["entries"]
     part = os.path.join(VERIF, "known_findings.d", f"{pid}.json")
     if os.path.exists(part):
-        have = {e.get("id") for e in entries}
-        entries += [e for e in json.load(open(part)) if e.get("id") not in have]
+        have = {(e.get("property"), e.get("id")) for e in entries}
+        entries += [e for e in json.load(open(part)) if (e.get("property"), e.get("id")) not in have]
     return [e for e in entries if e["property"] == pid and e["status"] == "finding"]
 
 
